@@ -171,6 +171,69 @@ fn dispatch(ty: &str, j: &Value) -> Value {
     }
 }
 
+/// thorough tier: seeded random values of the scalar and collection types through both paths; only failures are written
+pub fn run_random(args: &[String]) -> i32 {
+    // serde-rt-random <seed> <n> <out.ndjson>
+    use rand::rngs::StdRng;
+    use rand::{Rng, SeedableRng};
+    quiet_panics();
+    let seed: u64 = args[0].parse().unwrap_or(1);
+    let n: usize = args[1].parse().unwrap_or(100);
+    let mut rng = StdRng::seed_from_u64(seed);
+    let mut w = NdWriter::create(&args[2]);
+    let mut total = 0usize;
+    let mut bad = 0usize;
+    let mut note = |ty: &str, o: Value, w: &mut NdWriter, total: &mut usize, bad: &mut usize| {
+        *total += 1;
+        if o["term"]["k"] != "same" || o["bytes"]["k"] != "same" {
+            *bad += 1;
+            let mut o = o;
+            o["ty"] = json!(ty);
+            w.put(&o);
+        }
+    };
+    fn rstr(rng: &mut StdRng) -> String {
+        let n = rng.random_range(0..12);
+        (0..n).map(|_| char::from_u32(match rng.random_range(0..4) { 0 => rng.random_range(0x20..0x7f), 1 => rng.random_range(0xa0..0x800), 2 => rng.random_range(0x800..0xd800), _ => rng.random_range(0x10000..0x110000) }).unwrap_or('x')).collect()
+    }
+    fn rf64(rng: &mut StdRng) -> f64 {
+        loop {
+            let f = f64::from_bits(rng.random::<u64>());
+            if !f.is_nan() {
+                return f;
+            }
+        }
+    }
+    fn ri64(rng: &mut StdRng) -> i64 {
+        match rng.random_range(0..4) { 0 => rng.random::<i64>(), 1 => rng.random_range(-300..300), 2 => (1i64 << rng.random_range(0..63)) + rng.random_range(-2..3), _ => -(1i64 << rng.random_range(0..63)) + rng.random_range(-2..3) }
+    }
+    for _ in 0..n {
+        note("i64", rt(&ri64(&mut rng)), &mut w, &mut total, &mut bad);
+        note("u64", rt(&rng.random::<u64>()), &mut w, &mut total, &mut bad);
+        note("i32", rt(&rng.random::<i32>()), &mut w, &mut total, &mut bad);
+        note("u16", rt(&rng.random::<u16>()), &mut w, &mut total, &mut bad);
+        note("i8", rt(&rng.random::<i8>()), &mut w, &mut total, &mut bad);
+        note("f64", rt(&rf64(&mut rng)), &mut w, &mut total, &mut bad);
+        note("f32", rt(&(loop { let f = f32::from_bits(rng.random::<u32>()); if !f.is_nan() { break f; } })), &mut w, &mut total, &mut bad);
+        note("char", rt(&char::from_u32(rng.random_range(0..0xd800)).unwrap_or('a')), &mut w, &mut total, &mut bad);
+        note("String", rt(&rstr(&mut rng)), &mut w, &mut total, &mut bad);
+        note("Option<i64>", rt(&(if rng.random::<bool>() { Some(ri64(&mut rng)) } else { None })), &mut w, &mut total, &mut bad);
+        note("Vec<i64>", rt(&(0..rng.random_range(0..6)).map(|_| ri64(&mut rng)).collect::<Vec<i64>>()), &mut w, &mut total, &mut bad);
+        note("Vec<String>", rt(&(0..rng.random_range(0..4)).map(|_| rstr(&mut rng)).collect::<Vec<String>>()), &mut w, &mut total, &mut bad);
+        note("Vec<u8>", rt(&(0..rng.random_range(0..40)).map(|_| rng.random::<u8>()).collect::<Vec<u8>>()), &mut w, &mut total, &mut bad);
+        note("(i64, String, f64)", rt(&(ri64(&mut rng), rstr(&mut rng), rf64(&mut rng))), &mut w, &mut total, &mut bad);
+        note("BTreeMap<String, i64>", rt(&(0..rng.random_range(0..4)).map(|_| (rstr(&mut rng), ri64(&mut rng))).collect::<BTreeMap<String, i64>>()), &mut w, &mut total, &mut bad);
+        note("BTreeMap<i64, String>", rt(&(0..rng.random_range(0..4)).map(|_| (ri64(&mut rng), rstr(&mut rng))).collect::<BTreeMap<i64, String>>()), &mut w, &mut total, &mut bad);
+        note("Plain", rt(&Plain { a: ri64(&mut rng), b: rstr(&mut rng), c: if rng.random::<bool>() { Some(rng.random::<u8>()) } else { None }, d: (0..rng.random_range(0..4)).map(|_| rng.random::<i32>()).collect() }), &mut w, &mut total, &mut bad);
+        let shape = match rng.random_range(0..4) { 0 => Shape::Unit, 1 => Shape::Newtype(ri64(&mut rng)), 2 => Shape::Tuple(rng.random::<i32>(), rstr(&mut rng)), _ => Shape::Struct { x: rng.random::<u64>(), y: rf64(&mut rng) } };
+        note("Shape", rt(&shape), &mut w, &mut total, &mut bad);
+        note("Option<Vec<String>>", rt(&(if rng.random::<bool>() { Some((0..rng.random_range(0..3)).map(|_| rstr(&mut rng)).collect::<Vec<String>>()) } else { None })), &mut w, &mut total, &mut bad);
+    }
+    w.put(&json!({"summary": true, "values": total, "failures": bad}));
+    w.finish();
+    0
+}
+
 pub fn run(args: &[String]) -> i32 {
     // serde-rt <values.ndjson> <out.ndjson>
     quiet_panics();
